@@ -64,11 +64,12 @@ impl PartitionedFileGroup {
         ensures
             commands@.len() == this.to_drop@.len(), // @ob C02.dedupe_script.one_command_per_dropped_file
             forall|i: int| 0 <= i < commands@.len() ==> affected(#[trigger] commands@[i]) == this.to_drop@[i], // @ob C02.dedupe_script.each_command_affects_exactly_its_dropped_file
-            forall|i: int| 0 <= i < commands@.len() ==> link_target_is(#[trigger] commands@[i], this.to_keep@[0]), // @ob C02.dedupe_script.every_link_target_is_the_first_kept_file
+            forall|i: int| 0 <= i < commands@.len() ==> exists|k: int| 0 <= k < this.to_keep@.len()
+                && link_target_is(#[trigger] commands@[i], #[trigger] this.to_keep@[k]), // @ob C02.dedupe_script.every_link_target_is_a_kept_file
             forall|i: int| 0 <= i < commands@.len() ==> kind_matches(#[trigger] commands@[i], *strategy), // @ob C02.dedupe_script.command_kind_is_the_requested_operation
     {
         let mut this = this;
-        let ghost kept0 = this.to_keep@[0];
+        let ghost keep0 = this.to_keep@;
         let ghost drop0 = this.to_drop@;
 '''
 
@@ -93,10 +94,10 @@ def build():
     p.after("for dropped_file in this.to_drop", '''
             invariant
                 it.history@ + it.iter.remaining() =~= drop0, it.index@ == it.history@.len(),
-                *retained_file == kept0, // @ob C02.dedupe_script.inv_the_retained_file_stays_the_first_kept_file
+                exists|k: int| 0 <= k < keep0.len() && *retained_file == #[trigger] keep0[k], // @ob C02.dedupe_script.inv_the_retained_file_is_one_of_the_kept_files
                 commands@.len() == it.index@, // @ob C02.dedupe_script.inv_one_command_per_dropped_file_so_far
                 forall|i: int| 0 <= i < commands@.len() ==> affected(#[trigger] commands@[i]) == drop0[i], // @ob C02.dedupe_script.inv_each_command_affects_its_dropped_file
-                forall|i: int| 0 <= i < commands@.len() ==> link_target_is(#[trigger] commands@[i], kept0), // @ob C02.dedupe_script.inv_every_link_target_is_the_first_kept_file
+                forall|i: int| 0 <= i < commands@.len() ==> link_target_is(#[trigger] commands@[i], *retained_file), // @ob C02.dedupe_script.inv_every_link_target_is_the_retained_file
                 forall|i: int| 0 <= i < commands@.len() ==> kind_matches(#[trigger] commands@[i], *strategy), // @ob C02.dedupe_script.inv_the_kind_of_command_is_the_requested_operation
        ''')
     ub.spec("\n    }\n}\n\n} // verus!\nfn main() {}\n")
